@@ -1225,8 +1225,9 @@ class MemoryCache:
         try:
             self.refs[cache_key] = result
         except TypeError:
-            # primitives like ints, strs, and dicts can't be weakrefed
-            pass
+            # primitives like ints, strs, and dicts can't be weakrefed; make sure a reference
+            # to a previous result of this call is not served in their place
+            self.refs.pop(cache_key, None)
 
     def put(self, memento: Memento, result: object, has_result: bool):
         cache_key = self._cache_key_for_memento(memento)
